@@ -25,12 +25,15 @@ int f(const void *p, session_table *t, const uint8_t *m) { return derive_session
 EOF
 if ! $CC $COMMON -c "$OUT/sigprobe.c" -o "$OUT/sigprobe.o" >>"$LOG" 2>&1; then SIG="-DDSE_OLD_SIG"; fi
 rm -f "$OUT/sigprobe.c" "$OUT/sigprobe.o"
+# Is the state-view hook present? (the harness prints `st` lines only then; the check drops them from the model side otherwise)
+SV=""
+if grep -q "lltd_verif_state_view" "$CORE/lltdBlock.c" 2>/dev/null; then SV="-DHAVE_STATE_VIEW"; echo "state-view=yes" >>"$LOG"; else echo "state-view=no" >>"$LOG"; fi
 ESP=""
 ESPSRC=""
 if [ -f "$REPO/os/esp32/daemon/lltd_esp32.c" ]; then ESP="-DWITH_ESP32"; ESPSRC="$REPO/os/esp32/daemon/lltd_esp32.c"; fi
 BIN="$OUT/harness_$VARIANT"
 rm -f "$BIN"
-if ! $CC $COMMON $FLAGS $SIG $ESP \
+if ! $CC $COMMON $FLAGS $SIG $SV $ESP \
     "$CORE/lltdBlock.c" "$CORE/lltdTlvOps.c" "$CORE/lltdWire.c" "$CORE/lltdAutomata.c" $ESPSRC \
     "$HERE/vport.c" "$HERE/main.c" "$HERE/yield_stub.c" -o "$BIN" >>"$LOG" 2>&1; then
   echo "BUILD-FAILED (see $LOG)" >&2
